@@ -1,0 +1,75 @@
+#ifndef UTIL_VERIF_HOOKS_H
+#define UTIL_VERIF_HOOKS_H
+/* Verification hooks.  Only compiled in when PREPROCESS_VERIF is defined;
+ * without that macro this header is empty and nothing in the tree changes.
+ *
+ * 1. Scheduling points: weak symbols that a test harness may define.  When no
+ *    harness defines them (every normal executable) their address is null and
+ *    the call sites do nothing.
+ * 2. Trace events: one text line "<thread> <event> <index>\n" per call written
+ *    with a single write() to the descriptor named by the environment variable
+ *    PREPROCESS_VERIF_TRACE_FD; a no-op when the variable is not set.
+ */
+#ifdef PREPROCESS_VERIF
+
+#include <stdint.h>
+#include <stdio.h>
+#include <stdlib.h>
+#include <unistd.h>
+
+extern "C" {
+void preprocess_verif_sem_init(void *sem, unsigned int value) __attribute__((weak));
+void preprocess_verif_sem_wait(void *sem) __attribute__((weak));
+void preprocess_verif_sem_post(void *sem) __attribute__((weak));
+void preprocess_verif_mutex_lock(void *mutex) __attribute__((weak));
+void preprocess_verif_mutex_unlock(void *mutex) __attribute__((weak));
+void preprocess_verif_yield(const char *where) __attribute__((weak));
+void preprocess_verif_thread_spawn(void) __attribute__((weak));
+void preprocess_verif_thread_begin(void) __attribute__((weak));
+void preprocess_verif_thread_end(void) __attribute__((weak));
+void preprocess_verif_thread_join(void) __attribute__((weak));
+}
+
+#define PREPROCESS_VERIF_SEM_INIT(s, v) do { if (preprocess_verif_sem_init) preprocess_verif_sem_init((s), (v)); } while (0)
+#define PREPROCESS_VERIF_SEM_WAIT(s) do { if (preprocess_verif_sem_wait) preprocess_verif_sem_wait(s); } while (0)
+#define PREPROCESS_VERIF_SEM_POST(s) do { if (preprocess_verif_sem_post) preprocess_verif_sem_post(s); } while (0)
+#define PREPROCESS_VERIF_MUTEX_LOCK(m) do { if (preprocess_verif_mutex_lock) preprocess_verif_mutex_lock(m); } while (0)
+#define PREPROCESS_VERIF_MUTEX_UNLOCK(m) do { if (preprocess_verif_mutex_unlock) preprocess_verif_mutex_unlock(m); } while (0)
+#define PREPROCESS_VERIF_YIELD(w) do { if (preprocess_verif_yield) preprocess_verif_yield(w); } while (0)
+#define PREPROCESS_VERIF_THREAD_SPAWN() do { if (preprocess_verif_thread_spawn) preprocess_verif_thread_spawn(); } while (0)
+#define PREPROCESS_VERIF_THREAD_BEGIN() do { if (preprocess_verif_thread_begin) preprocess_verif_thread_begin(); } while (0)
+#define PREPROCESS_VERIF_THREAD_END() do { if (preprocess_verif_thread_end) preprocess_verif_thread_end(); } while (0)
+#define PREPROCESS_VERIF_THREAD_JOIN() do { if (preprocess_verif_thread_join) preprocess_verif_thread_join(); } while (0)
+
+namespace util {
+namespace verif {
+
+inline int TraceFDFromEnv() {
+  const char *name = getenv("PREPROCESS_VERIF_TRACE_FD");
+  return name ? atoi(name) : -1;
+}
+
+inline int TraceFD() {
+  static const int fd = TraceFDFromEnv();
+  return fd;
+}
+
+// thread: 'F' feeder, 'C' collector.  event: short name.  index: record number.
+inline void Trace(char thread, const char *event, uint64_t index) {
+  int fd = TraceFD();
+  if (fd < 0) return;
+  char buf[96];
+  int len = snprintf(buf, sizeof(buf), "%c %s %llu\n", thread, event, (unsigned long long)index);
+  if (len > 0) {
+    ssize_t ignored = ::write(fd, buf, (size_t)len);
+    (void)ignored;
+  }
+}
+
+} // namespace verif
+} // namespace util
+
+#define PREPROCESS_VERIF_TRACE(t, e, i) ::util::verif::Trace((t), (e), (i))
+
+#endif // PREPROCESS_VERIF
+#endif // UTIL_VERIF_HOOKS_H
